@@ -522,11 +522,26 @@ def rule_constants(ctx):
         ctx.check(len(p) == 1 and p[0].value == want, R, "file-header[%d]" % n, f.where(), "MidiFile.header() with %d tracks" % n,
                   "file header is %r, expected %r (length 6, format 1, track count, 72 ticks per quarter)" % ([(x.kind, x.value) for x in p], want))
     # single note / container writers use 72 ticks
-    for wname in ("write_Note", "write_NoteContainer"):
+    # (judged by what the writer hands to the track: a delta of 0 before the start, of 72 before the stop -- as bytes or as
+    #  the number; where in the module those constants are written is the writer's business)
+    for wname, start, stop in (("write_Note", "play_Note", "stop_Note"), ("write_NoteContainer", "play_NoteContainer", "stop_NoteContainer")):
         wf = repo.mod(MF).func(wname)
-        consts = [n.value for n in ast.walk(wf.node) if isinstance(n, ast.Constant) and isinstance(n.value, bytes)]
-        ctx.check(b"\x48" in consts and b"\x00" in consts, R, "%s.delta" % wname, wf.where(), "%s delta constants" % wname,
-                  "a note written on its own must last 72 ticks (delta bytes 00 / 48), found %r" % (consts,))
+        rec = record_class(repo, MT, "MidiTrack", [start, stop, "set_deltatime", "__init__"])
+        rec.update(record_class(repo, MF, "MidiFile", ["write_file"], result=True))
+        try:
+            paths = run_method(repo, wf, lambda: ["out.mid", Token("music"), 120, 1], summaries=rec)
+        except CannotDecide as e:
+            raise AnalysisError("%s: %s" % (wname, e))
+        ok, why = len(paths) == 1 and paths[0].kind == "return", "outcome %s" % [(p.kind, p.value) for p in paths]
+        if ok:
+            seq = [(e[0].split(".")[1], e[1][1:]) for e in log_of(paths[0].interp) if e[0].startswith("MidiTrack.") and not e[0].endswith("__init__")]
+            names = [x[0] for x in seq]
+            zero, q = (b"\x00", 0), (b"\x48", 72)
+            if names != ["set_deltatime", start, "set_deltatime", stop] * 2:
+                ok, why = False, "with repeat=1 the track is driven by %s" % names
+            elif any(seq[i][1][:1] != [d] and (not seq[i][1] or seq[i][1][0] not in ds) for i, ds, d in ((0, zero, None), (2, q, None), (4, zero, None), (6, q, None))):
+                ok, why = False, "a note written on its own must start at delta 0 and last 72 ticks; the deltas handed to the track are %s" % [x[1] for x in seq if x[0] == "set_deltatime"]
+        ctx.check(ok, R, "%s.delta" % wname, wf.where(), "%s(file, music, 120, 1): the deltas handed to the MidiTrack" % wname, why)
 
 
 def rule_header_body(ctx):
